@@ -117,6 +117,18 @@ CLAIMED = {
         "open finding; gfm_only / linkify effects need linkify-it-py.",
         "exhaustive type-table enumeration + Hypothesis; reference-model (type table) + differential (entry points / spellings) + metamorphic (front matter vs global) oracles",
     ),
+    "C14": (
+        "Every trigger fragment (20 catalogue entries incl. ref.footnote) x container x suppress list {its tag, bare type, "
+        "type.*, another tag, unrelated, none} (exhaustive), Hypothesis combinations of triggers, fillers and random "
+        "suppress lists through docutils and the in-process Sphinx reader, and a static enumeration of every "
+        "warning-emitting call site in the package (47 sites); oracles: every emitted myst tag is in the MystWarnings "
+        "catalogue and every trigger emits its documented tag in both front ends; suppressed run == unsuppressed run "
+        "minus exactly the matched log lines and system_message nodes (order and remaining pformat identical); call "
+        "sites pass a catalogue member / literal or an explicit non-myst type; bounded search.",
+        "'Every catalogue warning is emitted' is read as 'whenever emitted, tagged'; render / html / xref_ambiguous / "
+        "domains are covered statically only; Sphinx removes system_message nodes by design.",
+        "exhaustive trigger x suppress-list enumeration + Hypothesis; metamorphic (suppression) + catalogue-membership oracles; exhaustive AST call-site enumeration",
+    ),
     "C16": (
         "Hypothesis markup soup (totality, termination, tree consistency), grammar-generated well-formed HTML and "
         "exhaustive forests of <=4/5 nodes (exact round trip, copy/strip isolation, find = brute-force filter), "
